@@ -78,11 +78,12 @@ def start_jobs(tier, side, F=None, types=(1, 2, 3, 5, 6, 7)):
     for it in types:
         jobs.append(Job("h_start", variant="side%d-in%d-F%d%s" % (side, it, F, "-deep" if deep else ""),
                         defines={"VP_SIDE": side, "VP_IN_TYPE": it, "VP_F": F, "VP_EINTR": 1,
-                                 "VP_MAXEV": 1, "VP_EXTRA": 2 if deep else 1, "VP_USERFD_SYM": 1 if deep else 0},
-                        unwind=20, params={"nfd": 18, "retry": F + 2, "input_max": 3},
+                                 "VP_MAXEV": 1, "VP_EXTRA": 2 if deep else 1, "VP_USERFD_SYM": 1 if deep else 0,
+                                 "VP_NFD": 20 if deep else 18, "VP_NOFD": 24 if deep else 18},
+                        unwind=26 if deep else 20, params={"nfd": 20 if deep else 18, "retry": F + 2, "input_max": 3},
                         cbmc_flags=["--slice-formula"], timeout=1200 if not deep else 3600,
                         solvers=("minisat",) if not deep else ("minisat", "cadical"),
-                        bounds={"faults": F, "descriptor_table": 18, "stdin_type": it,
+                        bounds={"faults": F, "descriptor_table": 20 if deep else 18, "stdin_type": it,
                                 "unrelated_descriptors": 2 if deep else 1,
                                 "caller_descriptors": "any two positions 3..17" if deep else "two layouts (3,4 / 15,16)"}))
     return jobs
